@@ -62,6 +62,10 @@ PROFILES = {
                        p_catch=0.3),
     "ctx": dict(BASE, ctx_types=("async",), p_ctx=0.5, p_share=0.1),
     "ctxsync": dict(BASE, ctx_types=("async",), p_ctx=0.5, p_sync=0.25, p_share=0.1),
+    "timer": dict(BASE, ctx_types=("timer", "timer", "async"), p_ctx=0.6, p_share=0.1, nseg=(2, 4)),
+    "timersync": dict(BASE, ctx_types=("timer",), p_ctx=0.6, p_sync=0.25, p_share=0.1, nseg=(2, 4)),
+    "timerfaults": dict(BASE, ctx_types=("timer", "override"), nvars=1, p_ctx=0.6, flush_modes=("ok", "itemerr", "raise"), p_raise=0.12,
+                        p_catch=0.4, nseg=(2, 4)),
     "ctxfaults": dict(BASE, ctx_types=("async",), p_ctx=0.5, flush_modes=("ok", "itemerr", "raise"), p_raise=0.12,
                       p_catch=0.4, p_result=0.5),
     "override": dict(BASE, ctx_types=("override", "attr", "async"), p_ctx=0.5, nvars=2, p_read=0.5),
